@@ -87,9 +87,7 @@ inductive Damage where
   -- load phase
   | twoPackages
   -- generate phase
-  | typeMissing | wrongKind | notInFile | restResults | restParseFail | exportedGetFlag | manualBadParam | manualTwice | formatFail
-  -- generate phase, Go runtime panic (finding regions)
-  | valueRecv | manualUnnamed | manualNoBody | setterIface | univEmbed
+  | typeMissing | wrongKind | notInFile | restResults | restAliasDup | restParseFail | exportedGetFlag | manualBadParam | manualTwice | formatFail
   deriving DecidableEq, Repr
 
 /-- `outs`: the files the command line would write if the damage is not fatal for this sub-command;
@@ -104,7 +102,6 @@ def classify (cmd : Cmd) (d : Damage) (outs : List String) (stale : List String)
     match cmd with
     | .new | .map | .rest => { gen := .fatal }
     | .enum => { outputs := outs }     -- enum skips the name with a warning and generates the others
-  | .notInFile | .restResults | .restParseFail | .exportedGetFlag | .manualBadParam | .manualTwice | .formatFail => { gen := .fatal }
-  | .valueRecv | .manualUnnamed | .manualNoBody | .setterIface | .univEmbed => { gen := .panic }
+  | .notInFile | .restResults | .restAliasDup | .restParseFail | .exportedGetFlag | .manualBadParam | .manualTwice | .formatFail => { gen := .fatal }
 
 end ShootVerif.Phases
